@@ -245,7 +245,14 @@ def main(tier, replay=None):
                     continue
                 got = runner.execute(chk, built[co][h], hdr, execs, tag="%s_%s%s%d" % (h, co[0], co[1].replace("-", ""), gi))
                 if [l for (l, _e) in got] != [l for (l, _e) in refl]:
-                    raise vlib.ToolError("executions of %s under %s %s are not aligned with the reference" % (h, co[0], co[1]))
+                    # a crash made the runner restart or give up: executions are missing or shifted under this configuration
+                    k = next((i for i, ((l1, _e1), (l2, _a2)) in enumerate(zip(got, refl)) if l1 != l2), min(len(got), len(refl)))
+                    bad = refl[k][0] if k < len(refl) else []
+                    last = got[k - 1][1][-1] if k > 0 and got[k - 1][1] else ""
+                    ndiff += 1
+                    chk.violation("%s under %s %s did not complete the executions the reference completed (stopped near execution %d: %s)" %
+                                  (h, co[0], co[1], k, last[:200]), "# harness %s configuration %s %s\n%s" % (h, co[0], co[1], "\n".join(hdr + (got[k - 1][0] if k > 0 else bad))))
+                    continue
                 for (l, e), (_l, a) in zip(got, refl):
                     b = [norm(x) for x in e]
                     nev += len(e)
